@@ -500,7 +500,7 @@ func main() {
 		"death cases (the enumerated fault): the holder is stopped right after its j-th backend operation for every j of the acquire and ≥2 steady-state heartbeat rounds, × observer counts × idle previous holders of the same id; " +
 		"non-trivial = death cases where the holder really died holding a lock directory, and live cases with ≥1 observer; distinct = scenario parameters (incl. schedule seed index).")
 	r.Assume("virtual clock inside a synctest bubble: a gated operation waits at most 5 ms, so a live heartbeat is never more than ~30 ms late", "OS directory on ext4, one kernel",
-		"the re-stamper emulates a filesystem clock equal to the process clock", "the real-time clause (I/O load, scheduler latency) is not decided here")
+		"the re-stamper emulates a filesystem clock equal to the process clock", "real-time complement under I/O and CPU load: stale reports are judged with a 25 ms margin and only while an in-process latency reference stays below half a period (otherwise inconclusive)")
 
 	if r.Replay != "" {
 		var wit struct {
@@ -562,6 +562,8 @@ func main() {
 	vrun.Parallel(len(cases), 0, func(i int) {
 		analyse(r, runScenario(r, cases[i], true))
 	})
+	realtimePart(r)
+	r.Require("realtime_isstale_polls_on_live_lock", 500)
 	r.Require("isstale_polls_on_live_lock", 2000)
 	r.Require("isstale_polls_during_handovers", 3000)
 	r.Require("death_points", 20)
